@@ -1,6 +1,6 @@
 (* FSolveAllG.v — FortranEngine.solve refines SolverMixin.solve beyond the finite regime: periods that end 'E' (numerical
    error under errors='raise'), 'S' (errors='skip'), with pre-existing non-finite check values, or with an offset that leaves
-   the span (both under errors='raise'), besides the '.' / 'F' periods of FSolveAll.v.  Hypotheses are asked of a period
+   the span (whatever `errors` is, fix b027373), besides the '.' / 'F' periods of FSolveAll.v.  Hypotheses are asked of a period
    only if the solve reaches it. *)
 From Coq Require Import ZArith List Bool Lia ZifyBool.
 Import ListNotations.
@@ -61,9 +61,9 @@ Section SolveAllG.
   (* 3. pre-existing non-finite check values under errors='raise' *)
   Definition sc_pre (p : nat) (v : vals) : Prop :=
     off_ok p /\ errors o = ERaise /\ all_finite (get_check d (seeded d o v p) p) = false.
-  (* 4. the offset leaves the span, under errors='raise' (under the other settings: kept finding) *)
+  (* 4. the offset leaves the span: IndexError from both, nothing copied, whatever `errors` is (fix b027373) *)
   Definition sc_off (p : nat) : Prop :=
-    errors o = ERaise /\ offset o <> 0 /\ (Z.of_nat p + offset o < 0 \/ Z.of_nat n <= Z.of_nat p + offset o).
+    offset o <> 0 /\ (Z.of_nat p + offset o < 0 \/ Z.of_nat n <= Z.of_nat p + offset o).
 
   (* 5. the period has no room for the lags / leads: IndexError from both, whatever the options (fix 1354783) *)
   Definition period_okG (p : nat) (v : vals) : Prop :=
@@ -74,6 +74,7 @@ Section SolveAllG.
   Definition stops (r : fout num) : bool :=
     if fo_code r =? 0 then negb (fo_conv r) && fail_raise o
     else if (c_below <=? fo_code r) && (fo_code r <=? c_leads) then true
+    else if (fo_code r =? c_off_pre) || (fo_code r =? c_off_post) then true
     else is_raise (errors o).
 
   (* every period the solve reaches, on the store the previous ones leave *)
@@ -100,7 +101,7 @@ Section SolveAllG.
     \/ (errors o = ERaise /\ exists v' x,
         period_args p v = mkFout v' false x c_pre_existing /\
         solve_t_M d o (Z.of_nat p) (mkState v st it lg) = (mkState v' st it lg, Raise (SolutionError None)))
-    \/ (errors o = ERaise /\ exists x c, (c = c_off_pre \/ c = c_off_post) /\
+    \/ (exists x c, (c = c_off_pre \/ c = c_off_post) /\
         period_args p v = mkFout v false x c /\
         solve_t_M d o (Z.of_nat p) (mkState v st it lg) = (mkState v st it lg, Raise IndexError))
     \/ (exists x c, (c = c_lags \/ c = c_leads) /\
@@ -202,8 +203,8 @@ Section SolveAllG.
         rewrite ec_raise_iffG, Her, Hnf. reflexivity.
       + rewrite (py_head p v st it lg Hp Hlen Hfeas). cbv zeta. rewrite (pre_eq p v Hoff). rewrite Her, Hnf. reflexivity.
     - (* offset outside the span *)
-      destruct Hoffs as (Her & Hne & Hout).
-      right. right. right. right. left. split; [exact Her|].
+      destruct Hoffs as (Hne & Hout).
+      right. right. right. right. left.
       exists undef_iter, (if Z.of_nat p + 1 + offset o <? 1 then c_off_pre else c_off_post). split; [|split].
       + destruct (Z.of_nat p + 1 + offset o <? 1); [left|right]; reflexivity.
       + unfold FSolveAll.period_args, FSolve.t_solve_t. rewrite (shape_ncols num n m v Hs Hm), t_index_idem, Hg.
@@ -220,7 +221,8 @@ Section SolveAllG.
 
   Lemma stops_spec (r : fout num) :
     (if fo_code r =? 0 then negb (fo_conv r) && (fc =? c_fail_raise)
-     else if (c_below <=? fo_code r) && (fo_code r <=? c_leads) then true else ec =? c_ec_raise) = stops r.
+     else if (c_below <=? fo_code r) && (fo_code r <=? c_leads) then true
+     else if (fo_code r =? c_off_pre) || (fo_code r =? c_off_post) then true else ec =? c_ec_raise) = stops r.
   Proof. unfold stops. rewrite fc_raise_iffG, ec_raise_iffG. reflexivity. Qed.
 
   (* the two loops, from any intermediate point *)
@@ -242,7 +244,7 @@ Section SolveAllG.
       cbn [map FSolve.t_solve_loop FSolve.py_solve_loop]. fold (period_args p v) in *.
       rewrite (stops_spec (period_args p v)).
       destruct Hpr as [(v1 & b & k & lg' & Hpa & Hpy)|[(He & v1 & k & lg' & Hpa & Hpy)|[(He & v1 & k & lg' & Hpa & Hpy)|
-                       [(He & v1 & x & Hpa & Hpy)|[(He & x & c & Hc & Hpa & Hpy)|(x & c & Hc & Hpa & Hpy)]]]]];
+                       [(He & v1 & x & Hpa & Hpy)|[(x & c & Hc & Hpa & Hpy)|(x & c & Hc & Hpa & Hpy)]]]]];
         rewrite Hpa in *; rewrite Hpy; unfold stops in *; cbn [fo_code fo_conv fo_iter fo_vals] in *.
       + (* '.' or 'F' *)
         change (0 =? 0) with true in *. cbv iota in *.
@@ -276,12 +278,14 @@ Section SolveAllG.
         cbn [FSolve.w_results]. rewrite Ws, Wr, Wp. change (31 =? 0) with false. change (31 =? 21) with false. change (31 =? 31) with true.
         rewrite He. cbn [andb is_raise fst snd]. split; [reflexivity|]. repeat split.
       + (* offset *)
-        rewrite He in *. cbn [is_raise] in *.
-        destruct Hc as [-> | ->]; [rewrite Cop in *|rewrite Coq in *].
-        * change (41 =? 0) with false in *. cbv iota in *.
+        destruct template_codes as (_ & _ & _ & _ & _ & Cb & _ & _ & Cd & _).
+        destruct Hc as [-> | ->]; rewrite ?Cop, ?Coq, ?Cb, ?Cd in *.
+        * change (41 =? 0) with false in *. change ((11 <=? 41) && (41 <=? 14)) with false in *.
+          change ((41 =? 41) || (41 =? 42)) with true in *. cbv iota in *.
           cbn [FSolve.w_results]. rewrite Ws, Wr, Wp, Wop. change (41 =? 0) with false. change (41 =? 21) with false. change (41 =? 31) with false.
           change (41 =? 41) with true. cbn [andb fst snd]. split; [reflexivity|]. repeat split.
-        * change (42 =? 0) with false in *. cbv iota in *.
+        * change (42 =? 0) with false in *. change ((11 <=? 42) && (42 <=? 14)) with false in *.
+          change ((42 =? 41) || (42 =? 42)) with true in *. cbv iota in *.
           cbn [FSolve.w_results]. rewrite Ws, Wr, Wp, Wop, Woq. change (42 =? 0) with false. change (42 =? 21) with false. change (42 =? 31) with false.
           change (42 =? 41) with false. change (42 =? 42) with true. cbn [andb fst snd]. split; [reflexivity|]. repeat split.
       + (* no room for the lags / leads *)
@@ -313,18 +317,18 @@ Section SolveAllG.
   Qed.
 
   (* the same from the arguments start= / end= (None = default, Some = the position a given label was found at): both engines
-     select the same periods — the defaults by position, IndexError when the span is too short for the lags / leads — and then
+     select the same periods — SolutionError on an empty span (fix e0867c1), the defaults by position, IndexError when the span
+     is too short for the lags / leads — and then
      agree as above (SolverMixin.iter_periods since 7cd6323, FortranEngine.solve since 084a032) *)
   Theorem w_solve_se_refines start stop s :
-    (0 < n)%nat ->
     shape n m (vals_of s) -> length (status s) = n ->
     (forall ps, sel_positions d n start stop = inl ps -> solve_okG ps (vals_of s)) ->
     agree num (w_solve_se num sub absf ltb isfin zero evf fm d o fl start stop s)
               (py_solve_se num sub absf ltb isfin zero ev (no_hook num) (no_hook num) d o start stop s).
   Proof.
-    intros Hn Hs Hlen Hok. unfold FSolve.w_solve_se, FSolve.py_solve_se.
+    intros Hs Hlen Hok. unfold FSolve.w_solve_se, FSolve.py_solve_se.
     assert (Hlt : (max_iter o <? min_iter o) = false) by lia. rewrite Hlt, Hlen.
-    replace (n =? 0)%nat with false by (symmetry; apply Nat.eqb_neq; lia).
+    destruct (n =? 0)%nat; [split; [reflexivity|]; repeat split|].
     destruct (sel_positions d n start stop) as [ps|e] eqn:E.
     - apply w_solve_refinesG; auto.
     - split; [reflexivity|]. repeat split.
